@@ -184,6 +184,22 @@ def anchors():
     return m
 
 
+def run_group(cmd, env, timeout):
+    """run in its own process group; on timeout kill the whole group (a mutant
+    can make bfg9000 loop forever) and report -9"""
+    import signal
+    p = subprocess.Popen(cmd, env=env, cwd=VERIF, stdout=subprocess.PIPE,
+                         stderr=subprocess.STDOUT, text=True,
+                         start_new_session=True)
+    try:
+        so, _ = p.communicate(timeout=timeout)
+        return p.returncode, so
+    except subprocess.TimeoutExpired:
+        os.killpg(p.pid, signal.SIGKILL)
+        so, _ = p.communicate()
+        return -9, so
+
+
 def run_one(arg):
     n, f, props, seed, out = arg
     rnd = random.Random(seed * 100003 + n)
@@ -213,16 +229,15 @@ def run_one(arg):
             return res
         env = dict(os.environ, VERIF_REPO=r, VERIF_OUT=os.path.join(d, 'o'))
         for p in props:
-            q = subprocess.run([os.path.join(VERIF, 'check'), p], env=env,
-                               capture_output=True, text=True, cwd=VERIF)
-            res['checks'][p] = q.returncode
-            if q.returncode != 0:
+            rc, so = run_group([os.path.join(VERIF, 'check'), p], env, 900)
+            res['checks'][p] = rc
+            if rc != 0:
                 res['verdict'] = 'caught-by-' + p + (
-                    '' if q.returncode == 1 else '(exit %d)' % q.returncode)
-                first = [x for x in q.stdout.splitlines()
+                    '' if rc == 1 else '(hang)' if rc == -9 else
+                    '(exit %d)' % rc)
+                first = [x for x in so.splitlines()
                          if x.startswith(('VIOLATION', 'MACHINERY'))]
-                res['first'] = first[0][:300] if first else \
-                    q.stdout[-300:] + q.stderr[-300:]
+                res['first'] = first[0][:300] if first else so[-400:]
                 return res
         b = subprocess.run(['/venv/bin/python', os.path.join(
             VERIF, 'harness', 'baseline_cmp.py'), r], capture_output=True,
@@ -261,8 +276,10 @@ def main():
         ps = [p for p in anc[f] if not want or p in want]
         jobs.append((n, f, ps, a.seed, a.out))
     log = open(os.path.join(a.out, 'results.jsonl'), 'a')
+    from concurrent.futures import as_completed
     with ThreadPoolExecutor(a.jobs) as ex:
-        for res in ex.map(run_one, jobs):
+        for fut in as_completed([ex.submit(run_one, j) for j in jobs]):
+            res = fut.result()
             if res:
                 log.write(json.dumps(res) + '\n')
                 log.flush()
